@@ -1,0 +1,68 @@
+//go:build verif
+
+package tui
+
+import (
+	"fmt"
+	"os"
+	"time"
+)
+
+// VerifGetChars decodes the input buffer `buf` with LightRenderer.GetChar until it is used up
+// (at most `max` events). `later` is what the terminal still has to deliver: GetChar reads it
+// when an escape sequence is incomplete ("second chance"). One line per event:
+//
+//	<type> <char> <bytes left in the buffer> [<y> <x> <scroll> <left> <down> <double> <ctrl> <alt> <shift>]
+//
+// "blocked" is reported when GetChar waits for input that never comes, "panic: ..." when it panics.
+func VerifGetChars(buf []byte, later []byte, mouse bool, yoffset int, max int) []string {
+	pr, pw, err := os.Pipe()
+	if err != nil {
+		return []string{"pipe-error"}
+	}
+	defer pr.Close()
+	defer pw.Close()
+	if len(later) > 0 {
+		pw.Write(later)
+	}
+	r := &LightRenderer{mouse: mouse, ttyin: pr, escDelay: 0, yoffset: yoffset}
+	r.buffer = append([]byte{}, buf...)
+	out := []string{}
+	done := make(chan bool, 1)
+	go func() {
+		defer func() {
+			if e := recover(); e != nil {
+				out = append(out, fmt.Sprintf("panic: %v", e))
+			}
+			done <- true
+		}()
+		for n := 0; len(r.buffer) > 0 && n < max; n++ {
+			ev := r.GetChar()
+			line := fmt.Sprintf("%d %d %d", ev.Type, ev.Char, len(r.buffer))
+			if ev.MouseEvent != nil {
+				m := ev.MouseEvent
+				b := func(x bool) int {
+					if x {
+						return 1
+					}
+					return 0
+				}
+				line += fmt.Sprintf(" %d %d %d %d %d %d %d %d %d", m.Y, m.X, m.S, b(m.Left), b(m.Down), b(m.Double), b(m.Ctrl), b(m.Alt), b(m.Shift))
+			}
+			out = append(out, line)
+		}
+	}()
+	select {
+	case <-done:
+		return out
+	case <-time.After(300 * time.Millisecond):
+		// waiting for input: release the reader and report
+		res := append(append([]string{}, out...), "blocked")
+		pw.Write([]byte{'x'})
+		select {
+		case <-done:
+		case <-time.After(2 * time.Second):
+		}
+		return res
+	}
+}
